@@ -234,6 +234,34 @@ func (in *Interp) callCatchingPanic(f Func) (res Value) {
 	return
 }
 
+// mutexState finds the int32 state word inside a sync.Mutex of any layout.
+func (in *Interp) mutexState(p Ptr, fn *ssa.Function) Ptr {
+	t := fn.Signature.Recv().Type().(*types.Pointer).Elem()
+	for depth := 0; depth < 4; depth++ {
+		st, ok := t.Underlying().(*types.Struct)
+		if !ok {
+			break
+		}
+		found := false
+		for i := 0; i < st.NumFields(); i++ {
+			ft := st.Field(i).Type()
+			if b, ok := ft.Underlying().(*types.Basic); ok && b.Kind() == types.Int32 {
+				return in.fieldPtr(p, i)
+			}
+			if fs, ok := ft.Underlying().(*types.Struct); ok && fs.NumFields() > 0 {
+				p = in.fieldPtr(p, i)
+				t = ft
+				found = true
+				break
+			}
+		}
+		if !found {
+			break
+		}
+	}
+	panic(engineError{"cannot locate sync.Mutex state word"})
+}
+
 func (in *Interp) fieldPtr(p Ptr, f int) Ptr {
 	return Ptr{obj: p.obj, path: appendPath(p.path, PElem{f: f})}
 }
@@ -292,10 +320,10 @@ func init() {
 	libModels = map[string]libModel{
 		// --- sync: sequential semantics; re-locking a held mutex is a deadlock ---
 		"(*sync.Mutex).Lock": func(in *Interp, fn *ssa.Function, args []Value) Value {
-			p := in.fieldPtr(args[0].(Ptr), 0)
 			if args[0].(Ptr).obj.opaque {
 				return nil
 			}
+			p := in.mutexState(args[0].(Ptr), fn)
 			st := in.load(p, types.Typ[types.Int32]).(*Term)
 			if !in.p.Decide(Eq(st, Const(32, 0))) {
 				in.blocked("deadlock: sync.Mutex locked twice on one sequential path")
@@ -304,7 +332,7 @@ func init() {
 			return nil
 		},
 		"(*sync.Mutex).TryLock": func(in *Interp, fn *ssa.Function, args []Value) Value {
-			p := in.fieldPtr(args[0].(Ptr), 0)
+			p := in.mutexState(args[0].(Ptr), fn)
 			st := in.load(p, types.Typ[types.Int32]).(*Term)
 			if !in.p.Decide(Eq(st, Const(32, 0))) {
 				return TFalse
@@ -316,7 +344,7 @@ func init() {
 			if args[0].(Ptr).obj.opaque {
 				return nil
 			}
-			p := in.fieldPtr(args[0].(Ptr), 0)
+			p := in.mutexState(args[0].(Ptr), fn)
 			st := in.load(p, types.Typ[types.Int32]).(*Term)
 			if in.p.Decide(Eq(st, Const(32, 0))) {
 				in.panicGo("sync: unlock of unlocked mutex", "")
@@ -468,6 +496,31 @@ func init() {
 			return in.timeNow()
 		},
 		"time.Sleep":         noop,
+		"time.Since": func(in *Interp, fn *ssa.Function, args []Value) Value {
+			d := in.p.fresh("since", BV(64))
+			in.p.nondets = append(in.p.nondets, &Nondet{Tag: "time.Now", Kind: "u64", t: d})
+			if !in.p.Assume(ULt(d, C64(1<<62))) {
+				panic(pathEnd{"pruned", "clock contract"})
+			}
+			in.p.ex.res.Assumptions = appendUnique(in.p.ex.res.Assumptions, "time.Since(t): arbitrary non-negative duration (environment reading)")
+			return d
+		},
+		"time.Until": func(in *Interp, fn *ssa.Function, args []Value) Value {
+			d := in.p.fresh("until", BV(64))
+			in.p.nondets = append(in.p.nondets, &Nondet{Tag: "time.Now", Kind: "u64", t: d})
+			in.p.ex.res.Assumptions = appendUnique(in.p.ex.res.Assumptions, "time.Until(t): arbitrary duration (environment reading)")
+			return d
+		},
+		"(time.Time).Sub": func(in *Interp, fn *ssa.Function, args []Value) Value {
+			t, u := args[0].(*Struct), args[1].(*Struct)
+			tw, ok1 := t.F[0].(*Term).ConstVal()
+			uw, ok2 := u.F[0].(*Term).ConstVal()
+			if ok1 && ok2 && tw == 0 && uw == 0 {
+				// whole seconds, no monotonic reading: (t-u) seconds, no saturation inside +-2^33 s
+				return Mul(Sub(t.F[1].(*Term), u.F[1].(*Term)), C64(1000000000))
+			}
+			return in.callFunction(fn, args, nil)
+		},
 		"time.runtimeNano":   func(in *Interp, fn *ssa.Function, args []Value) Value { return in.p.fresh("nano", BV(64)) },
 		"(time.Time).String": func(in *Interp, fn *ssa.Function, args []Value) Value { return strLit("?time") },
 		"(time.Time).Format": func(in *Interp, fn *ssa.Function, args []Value) Value { return strLit("?time") },
@@ -491,7 +544,7 @@ func (in *Interp) timeNow() Value {
 	// monotonic reading and ext = seconds since year 1.
 	t := in.p.fresh("now", BV(64))
 	lo := C64(62135596800) // 1970-01-01 in internal seconds
-	hi := C64(62135596800 + (1 << 40))
+	hi := C64(62135596800 + (1 << 33))
 	c := BAnd(ULe(lo, t), ULt(t, hi))
 	if in.lastNow != nil {
 		c = BAnd(c, ULe(in.lastNow, t))
@@ -500,7 +553,7 @@ func (in *Interp) timeNow() Value {
 	if !in.p.Assume(c) {
 		panic(pathEnd{"pruned", "clock contract"})
 	}
-	in.p.ex.res.Assumptions = appendUnique(in.p.ex.res.Assumptions, "time.Now(): arbitrary non-decreasing instant between 1970 and 1970+2^40 s, whole seconds, no monotonic reading")
+	in.p.ex.res.Assumptions = appendUnique(in.p.ex.res.Assumptions, "time.Now(): arbitrary non-decreasing instant between 1970 and 1970+2^33 s, whole seconds, no monotonic reading")
 	in.lastNow = t
 	return &Struct{F: []Value{C64(0), t, Ptr{}}}
 }
@@ -691,4 +744,26 @@ func binaryWrite(in *Interp, fn *ssa.Function, args []Value) Value {
 func init() {
 	libModels["encoding/binary.Read"] = binaryRead
 	libModels["encoding/binary.Write"] = binaryWrite
+}
+
+// time.NewTicker / NewTimer: a ticker/timer that never fires on its own; the
+// harness may put a value on C to model a tick.
+func newTickerModel(in *Interp, fn *ssa.Function, args []Value) Value {
+	pt := fn.Signature.Results().At(0).Type().(*types.Pointer)
+	st := zeroValue(pt.Elem()).(*Struct)
+	// field 0 is C (<-chan Time)
+	in.objN++
+	st.F[0] = ChanRef{c: &ChanObj{id: in.objN, cap: 1, et: pt.Elem().Underlying().(*types.Struct).Field(0).Type().Underlying().(*types.Chan).Elem()}}
+	o := in.newObject(pt.Elem(), st, "ticker")
+	return Ptr{obj: o}
+}
+
+func init() {
+	libModels["time.NewTicker"] = newTickerModel
+	libModels["time.NewTimer"] = newTickerModel
+	libModels["time.AfterFunc"] = newTickerModel
+	libModels["time.After"] = func(in *Interp, fn *ssa.Function, args []Value) Value {
+		in.objN++
+		return ChanRef{c: &ChanObj{id: in.objN, cap: 1, et: fn.Signature.Results().At(0).Type().Underlying().(*types.Chan).Elem()}}
+	}
 }
